@@ -61,18 +61,26 @@ def el(i):
     return Obj('ElementDescriptor', {'id': i})
 
 
-def definition_message(na=2, nb=4, nd=3):
-    """Flat values of a table-definition message in the NCEP layout (the first na / nb / nd entries of Table A / B / D), with the tables it defines."""
+def _rep_node(values, n, rid, members, fixed):
+    """The replication node of one part of the definition message: delayed (factor value in front of the entries) or fixed (count in the descriptor)."""
+    if fixed:
+        return Obj('FixedReplicationNode', {'descriptor': Obj('FixedReplicationDescriptor', {'id': rid + n, 'members': members})})
+    idx = len(values)
+    values.append(n)
+    return Obj('DelayedReplicationNode', {'descriptor': Obj('DelayedReplicationDescriptor', {'id': rid, 'members': members, 'factor': el(31001)}),
+                                          'factor': Obj('ValueDataNode', {'index': idx})})
+
+
+def definition_message(na=2, nb=4, nd=3, fixed=(False, False, False)):
+    """Flat values of a table-definition message in the NCEP layout (the first na / nb / nd entries of Table A / B / D), with the tables it defines.
+    fixed: which of the three parts is spelled with fixed instead of delayed replication (the processor accepts both)."""
     values = []
     nodes = []
     # Table A: delayed replication of 000001 000002 000003
     a = [(b'001', b'MSG TYPE 1 ', b'line2'), (b'002', b'MSG TYPE 2 ', b'')][:na]
-    idx_a = len(values)
-    values.append(len(a))
+    nodes.append(_rep_node(values, len(a), 103000, [el(1), el(2), el(3)], fixed[0]))
     for t in a:
         values.extend(t)
-    nodes.append(Obj('DelayedReplicationNode', {'descriptor': Obj('DelayedReplicationDescriptor', {'id': 103000, 'members': [el(1), el(2), el(3)], 'factor': el(31001)}),
-                                               'factor': Obj('ValueDataNode', {'index': idx_a})}))
     # Table B
     b = [
         ('0', '48', '001', 'STATION PRESSURE                ', 'LINE TWO                ', 'PA                      ', '+', '  0', '+', '         0', ' 14'),
@@ -80,12 +88,9 @@ def definition_message(na=2, nb=4, nd=3):
         ('0', '63', '255', 'BALANCE                         ', 'OF SOMETHING            ', 'NUMERIC                 ', '+', '  2', '-', '      1024', ' 17'),
         ('0', '50', '010', 'BOTH NEGATIVE                   ', '                        ', 'M                       ', '-', '  3', '-', '         7', '  9'),
     ][:nb]
-    idx_b = len(values)
-    values.append(len(b))
+    nodes.append(_rep_node(values, len(b), 111000, [el(i) for i in range(10, 21)], fixed[1]))
     for t in b:
         values.extend(x.encode() for x in t)
-    nodes.append(Obj('DelayedReplicationNode', {'descriptor': Obj('DelayedReplicationDescriptor', {'id': 111000, 'members': [el(i) for i in range(10, 21)], 'factor': el(31001)}),
-                                               'factor': Obj('ValueDataNode', {'index': idx_b})}))
     want_b = {}
     for f, x, y, n1, n2, unit, ss, sc, rs, rf, w in b:
         want_b[f + x + y] = [n1.rstrip() + n2.rstrip(), unit.strip(), (1 if ss == '+' else -1) * int(sc), (1 if rs == '+' else -1) * int(rf), int(w), '', 0, 0]
@@ -95,14 +100,11 @@ def definition_message(na=2, nb=4, nd=3):
         ('3', '60', '002', 'SECOND                                                          ', ['101000', '031001', '360001']),
         ('3', '61', '003', 'EMPTY                                                           ', []),
     ][:nd]
-    idx_d = len(values)
-    values.append(len(d))
+    nodes.append(_rep_node(values, len(d), 105000, [
+        el(10), el(11), el(12), Obj('OperatorDescriptor', {'id': 205064}),
+        Obj('DelayedReplicationDescriptor', {'id': 101000, 'factor': el(31001), 'members': [el(30)]})], fixed[2]))
     for f, x, y, name, members in d:
         values.extend([f.encode(), x.encode(), y.encode(), name.encode(), len(members)] + [m.encode() for m in members])
-    dseq = Obj('DelayedReplicationDescriptor', {'id': 105000, 'factor': el(31001), 'members': [
-        el(10), el(11), el(12), Obj('OperatorDescriptor', {'id': 205064}),
-        Obj('DelayedReplicationDescriptor', {'id': 101000, 'factor': el(31001), 'members': [el(30)]})]})
-    nodes.append(Obj('DelayedReplicationNode', {'descriptor': dseq, 'factor': Obj('ValueDataNode', {'index': idx_d})}))
     want_d = dict((f + x + y, [name.rstrip(), list(members)]) for f, x, y, name, members in d)
     return nodes, values, want_b, want_d
 
@@ -111,21 +113,27 @@ def rule_r1(repo):
     rr = RuleResult('C20.R1', 'extraction of Table B / D entries from a definition message (NCEP layout), folded on a scripted message')
     fi = repo.own_method('BufrTableDefinitionProcessor', 'process')
     # messages that define only elements, only sequences, or nothing: every section still has its replication factor
-    for na, nb, nd in ((2, 0, 3), (0, 4, 0), (0, 0, 1), (1, 1, 1), (0, 0, 0), (2, 0, 0)):
-        nodes, values, want_b, want_d = definition_message(na, nb, nd)
+    D3 = (False, False, False)
+    # ... and messages whose parts are spelled with fixed replication (the processor accepts both forms for each part)
+    for na, nb, nd, fixed in ((2, 0, 3, D3), (0, 4, 0, D3), (0, 0, 1, D3), (1, 1, 1, D3), (0, 0, 0, D3), (2, 0, 0, D3),
+                              (1, 1, 1, (True, False, False)), (2, 4, 3, (True, False, False)), (2, 4, 3, (False, True, False)),
+                              (2, 4, 3, (False, False, True)), (2, 4, 3, (True, True, True)), (1, 2, 0, (True, True, False))):
+        nodes, values, want_b, want_d = definition_message(na, nb, nd, fixed)
         it = DefInterp(repo, 'BufrTableDefinitionProcessor')
         td = Obj('TemplateDataStub', {'decoded_nodes': nodes, 'decoded_values': values})
         msg = Obj('BufrMessage', {'n_subsets': Obj('P', {'value': 1}), 'template_data': Obj('P', {'value': td})})
         res = it.run_function(fi, lambda: {'self': Obj('BufrTableDefinitionProcessor', {}), 'bufr_message': msg}, self_class='BufrTableDefinitionProcessor')
-        rr.instance('definition message with %d Table A, %d Table B and %d Table D entries' % (na, nb, nd))
+        how = ''.join(' (Table %s under fixed replication)' % t for t, f in zip('ABD', fixed) if f)
+        rr.instance('definition message with %d Table A, %d Table B and %d Table D entries%s' % (na, nb, nd, how))
         if len(res) != 1:
             raise AnalysisError('BufrTableDefinitionProcessor.process forks into %d paths on a concrete message' % len(res))
         r = res[0]
         out = r.value if r.ok else None
         if not r.ok or not (isinstance(out, list) and len(out) == 3) or out[1] != want_b or out[2] != want_d:
-            rr.fail('BufrTableDefinitionProcessor:partial-tables', fi.where, 'a definition message with %d Table A, %d Table B and %d Table D entries gives %s; expected the '
-                    'elements %s and the sequences %s' % (na, nb, nd, ('raises ' + r.exc.cls) if not r.ok else repr(out[1:])[:300], sorted(want_b), sorted(want_d)),
-                    witness={'table_a': na, 'table_b': nb, 'table_d': nd})
+            rr.fail('BufrTableDefinitionProcessor:%s' % ('fixed-replication' if any(fixed) else 'partial-tables'), fi.where,
+                    'a definition message with %d Table A, %d Table B and %d Table D entries%s gives %s; expected the '
+                    'elements %s and the sequences %s' % (na, nb, nd, how, ('raises ' + r.exc.cls) if not r.ok else repr(out[1:])[:300], sorted(want_b), sorted(want_d)),
+                    witness={'table_a': na, 'table_b': nb, 'table_d': nd, 'fixed': list(fixed)})
     nodes, values, want_b, want_d = definition_message()
     it = DefInterp(repo, 'BufrTableDefinitionProcessor')
     td = Obj('TemplateDataStub', {'decoded_nodes': nodes, 'decoded_values': values})
